@@ -284,6 +284,35 @@ def empty_vs_absent(ctx, rep, clause):
                f're-parsed piece, and the subsequence search does not find it in its parent', m.loc(loop), clause)
 
 
+def no_truncating_zip(ctx, rep, clause):
+    """an equality test that walks two collections side by side with zip() stops at the shorter one: unless the
+    lengths were compared first (or zip is strict), a proper prefix compares equal"""
+    program = ctx.program
+    n = 0
+    for fq in (f'{PFA}.__eq__', f'{DC}:are_mods_equal', f'{DC}:are_intervals_equal', f'{DC}:Interval.__eq__',
+               f'{DC}:Mod.__eq__'):
+        f = program.find_func(fq)
+        if f is None:
+            continue
+        n += 1
+        zips = [x for x in walk_own(f.node) if isinstance(x, ast.Call) and isinstance(x.func, ast.Name) and x.func.id == 'zip'
+                and not any(kw.arg == 'strict' and isinstance(kw.value, ast.Constant) and kw.value.value is True
+                            for kw in x.keywords)]
+        bad = []
+        for z in zips:
+            args = [norm_stmt(a) for a in z.args]
+            guarded = any(isinstance(x, ast.Compare) and 'len(' in norm_stmt(x) and isinstance(x.ops[0], (ast.NotEq, ast.Eq))
+                          and x.lineno <= z.lineno for x in walk_own(f.node))
+            if not guarded:
+                bad.append(z)
+        ob(rep, 'SIB-hash', fq, 'no equality test walks two collections with a truncating zip()', not bad,
+           f'{len(zips)} zip call(s)', f'`{norm_stmt(bad[0])[:90] if bad else ""}` stops at the shorter collection and '
+           f'no length comparison precedes it: an annotation whose modified positions are a proper prefix of the '
+           f'other\'s compares equal (dropping the last modified residue goes unnoticed)', f.loc(bad[0]) if bad else
+           f.loc(), clause)
+    rep.floor('SIB-hash', 'equality functions scanned for zip()', n, 4)
+
+
 def check(ctx, rep):
     rep.explanation = EXPLANATION
     key_scheme(ctx, rep, 'C20a')
@@ -291,3 +320,6 @@ def check(ctx, rep):
     hash_eq(ctx, rep, 'C20c')
     copies(ctx, rep, 'C20d')
     empty_vs_absent(ctx, rep, 'C20b')
+    no_truncating_zip(ctx, rep, 'C20c')
+    from . import C01 as _c01
+    _c01.index_kinds(ctx, rep, 'C20a')
